@@ -4,7 +4,7 @@ must be equal to each other (pairwise, independent of the model) and to the extr
 from harness.props import _meta
 
 PROP, NUM = 'C11', 11
-SOURCES = _meta.available(['C01', 'C02', 'C03', 'C04', 'C05', 'C06', 'C07', 'C08', 'C09', 'C14', 'C16', 'C17', 'C19'])
+SOURCES = _meta.available(['C01', 'C02', 'C03', 'C04', 'C05', 'C06', 'C07', 'C08', 'C09', 'C14', 'C16', 'C17', 'C19', 'C21'])
 PROPS_FILES = ['Props/C11.v'] + _meta.props_files(SOURCES)
 MODES = ['jit', 'nojit']
 MODES_THOROUGH = ['jit', 'nojit', 'bounds']
@@ -21,7 +21,7 @@ TRUSTED = ['numba type inference and code generation (typed lists, optional argu
 ASSUMPTIONS = ['one model stands for both runtimes: integers are unbounded in the model; the range corollaries of '
                'coq/Props/C11.v bound the indices the join kernels compute']
 BUDGET = {'quick': {'*': 2500, 'C03': 12000, 'C04': 8000, 'C08': 8000, 'C16': 6000, 'C14': 5000, 'C09': 3000,
-                    'C01': 1200, 'C05': 2500, 'C06': 2500, 'C17': 1200},
+                    'C01': 1200, 'C05': 2500, 'C06': 2500, 'C17': 1200, 'C21': 8000},
           'thorough': {'*': 20000, 'C03': 120000, 'C04': 80000, 'C08': 80000, 'C16': 60000, 'C14': 50000}}
 
 
